@@ -12,6 +12,6 @@ CONSTANTS
   MaxResp = 3
   MaxCalls = 4
   Families <- AllFamilies
-  Lite = FALSE
+  Level = "full"
 INVARIANT Props
 PROPERTY AlwaysReturns
